@@ -16,14 +16,54 @@
 //! windows) judged against the convolution of their values; and buffer-reuse histories, in which one
 //! object is called again and again with the SAME input / spectrum / destination buffers (same address,
 //! same length, same n) refilled in place with other contents between the calls.
+//!
+//! Threads and other objects.  What a THREAD did before a call is part of the call's history as well (a
+//! library may keep tables per thread or share them between objects).  So: (i) every call into the crate -
+//! constructors, clones, `update_n`, the multiply that grows an object, every transform / multiply
+//! variant, explicit drops - runs inside `vcore::catch` and is judged (a panic is a violation with a
+//! replay, never the end of the process); (ii) the family `several_objects` makes the thread's history
+//! the thing that is enumerated: two or three live objects (f64/f64, f64/f32, f64/f32/f64) created on one
+//! fresh thread, every word over {judged product of a size class on an object, update_n, drop + new in
+//! place, replace by a clone of another object, continue on the second thread (objects move), lend an
+//! object to the other thread (which clones it through a shared reference and uses the clone)}.  Its
+//! replay is the whole script and runs on fresh threads of its own, so it is deterministic whatever else
+//! the process did; it runs first.  (iii) The other families run on the threads of the rayon pool, which
+//! have made the calls of earlier units (objects of both float types, every size) - unrecorded
+//! interference.  Hence every failure they see is re-judged on FRESH threads before it is reported:
+//! what shows alone is reported as it is.  What does not is a sign of a history-dependent defect: if the
+//! scripts report a violation it is left to them (listed in the evidence); otherwise it is retried after
+//! each entry of a small menu of recorded thread histories (another object of either float type, grown
+//! to a small / medium / larger-than-any table, dropped or kept alive) and the first history that shows
+//! it becomes part of its replay and signature; if no fresh thread shows it and nothing else is reported,
+//! the run ends without a verdict (exit 2).  Every replay runs on a fresh thread.
 
 use rayon::prelude::*;
 use rlib_fft::{Complex, FFT};
 use rlib_num_traits::{Float, ZeroOne};
+use std::sync::atomic::{AtomicU64, Ordering::Relaxed};
 use vcore::*;
 
-static SHORT_DEST_JUDGED: std::sync::atomic::AtomicU64 = std::sync::atomic::AtomicU64::new(0);
-static SHORT_DEST_REFUSED: std::sync::atomic::AtomicU64 = std::sync::atomic::AtomicU64::new(0);
+static SHORT_DEST_JUDGED: AtomicU64 = AtomicU64::new(0);
+static SHORT_DEST_REFUSED: AtomicU64 = AtomicU64::new(0);
+static FRESH_THREADS: AtomicU64 = AtomicU64::new(0);
+
+fn harness_thread_failed(what: &str) -> ! {
+    println!("MACHINERY-FAILURE property=C04 engine=fft {what} (not a verdict)");
+    std::process::exit(2)
+}
+
+/// `f` on a FRESH thread, waited for: nothing was called on that thread before, so whatever the library
+/// keeps per thread starts from scratch there, and what the thread has done when a call is judged is
+/// exactly what `f` did before it.  The calling thread itself never calls into the crate.
+fn on_fresh_thread<T: Send>(f: impl FnOnce() -> T + Send) -> T {
+    FRESH_THREADS.fetch_add(1, Relaxed);
+    let joined = std::thread::scope(|sc| match std::thread::Builder::new().spawn_scoped(sc, f) {
+        Ok(h) => h.join(),
+        Err(e) => harness_thread_failed(&format!("cannot start a thread: {e}")),
+    });
+    // calls into the crate are caught where they are made: what arrives here is a panic of the harness
+    joined.unwrap_or_else(|_| harness_thread_failed("a harness thread panicked outside a call into the library"))
+}
 
 fn conv(a: &[i32], b: &[i32]) -> Vec<i64> {
     if a.is_empty() || b.is_empty() {
@@ -224,44 +264,57 @@ impl CallSpec {
     }
 }
 
-fn grow<F: Float>(ctor: Ctor, state: usize, by_multiply: bool) -> FFT<F> {
-    let mut f = ctor.make::<F>();
+/// (family, message) of a failed judgement
+type Failed = (&'static str, String);
+
+fn show(v: &[i64]) -> String {
+    if v.len() <= 12 {
+        format!("{:?}", v)
+    } else {
+        format!("{:?}…({} values)", &v[..12], v.len())
+    }
+}
+
+fn first_diff(x: &[i64], y: &[i64]) -> String {
+    match x.iter().zip(y.iter()).position(|(p, q)| p != q) {
+        Some(i) => format!("first difference at index {i}: got {} expected {}", x[i], y[i]),
+        None => format!("lengths {} vs {}", x.len(), y.len()),
+    }
+}
+
+/// The object state of a spec: obtained by `ctor`, brought to table size `state`.  A panic while the
+/// object is obtained or grown is a violation like any other, and the multiply that grows it is judged
+/// (ones x ones inside the envelope: coefficient k is the number of index pairs with sum k).
+fn grow<F: Float>(prec: Prec, ctor: Ctor, state: usize, by_multiply: bool) -> Result<FFT<F>, Failed> {
+    let mut f = catch(|| ctor.make::<F>()).map_err(|p| ("object_state_panics", format!("obtaining the object ({}) panicked: {p}", ctor.name())))?;
     if by_multiply {
         // needs n = state: la + lb - 1 in (state/2, state]
         let n = state.max(2);
         let la = n / 2 + 1;
         let lb = n - la + 1;
-        let _ = f.multiply(&vec![1; la], &vec![1; lb]);
+        let got = catch(|| f.multiply(&vec![1; la], &vec![1; lb])).map_err(|p| ("multiply_panics", format!("the multiply of all-ones vectors of lengths {la} and {lb} that brings the object to table size {state} panicked: {p}")))?;
+        let exp: Vec<i64> = (0..la + lb - 1).map(|k| (k + 1).min(la).min(lb).min(la + lb - 1 - k) as i64).collect();
+        if amax(prec, la, lb) >= 1 && got != exp {
+            return Err(("multiply_exact", format!("the multiply of all-ones vectors of lengths {la} and {lb} that brings the object to table size {state} returned {}, the integer convolution is {}; {}", show(&got), show(&exp), first_diff(&got, &exp))));
+        }
     } else {
-        f.update_n(state);
+        catch(|| f.update_n(state)).map_err(|p| ("object_state_panics", format!("update_n({state}) on the new object panicked: {p}")))?;
     }
-    f
+    Ok(f)
 }
 
 /// All judgements of one call.  Err((family, message)).
-fn judge_call<F: Float>(obj: &FFT<F>, a: &[i32], b: &[i32]) -> Result<(), (&'static str, String)> {
+fn judge_call<F: Float>(obj: &FFT<F>, a: &[i32], b: &[i32]) -> Result<(), Failed> {
     let exp = conv(a, b);
-    let show = |v: &[i64]| -> String {
-        if v.len() <= 12 {
-            format!("{:?}", v)
-        } else {
-            format!("{:?}…({} values)", &v[..12], v.len())
-        }
-    };
-    let first_diff = |x: &[i64], y: &[i64]| -> String {
-        match x.iter().zip(y.iter()).position(|(p, q)| p != q) {
-            Some(i) => format!("first difference at index {i}: got {} expected {}", x[i], y[i]),
-            None => format!("lengths {} vs {}", x.len(), y.len()),
-        }
-    };
+    let cloned = || catch(|| obj.clone()).map_err(|p| ("object_state_panics", format!("cloning the object panicked: {p}")));
     // 1. multiply on the (possibly grown) object
-    let mut o1 = obj.clone();
+    let mut o1 = cloned()?;
     let got = catch(|| o1.multiply(a, b)).map_err(|p| ("multiply_panics", format!("multiply panicked: {p}")))?;
     if got != exp {
         return Err(("multiply_exact", format!("multiply returned {}, the integer convolution is {}; {}", show(&got), show(&exp), first_diff(&got, &exp))));
     }
     // 2. the same call on a fresh object
-    let mut fresh = FFT::<F>::new();
+    let mut fresh = catch(FFT::<F>::new).map_err(|p| ("object_state_panics", format!("FFT::new() panicked: {p}")))?;
     let gf = catch(|| fresh.multiply(a, b)).map_err(|p| ("multiply_panics", format!("multiply on a fresh object panicked: {p}")))?;
     if gf != got {
         return Err(("history_independence", format!("the reused object returned {}, a fresh object {}; {}", show(&got), show(&gf), first_diff(&got, &gf))));
@@ -272,7 +325,7 @@ fn judge_call<F: Float>(obj: &FFT<F>, a: &[i32], b: &[i32]) -> Result<(), (&'sta
         return Err(("history_independence", format!("repeating the call on the same object returned {}; {}", show(&again), first_diff(&again, &exp))));
     }
     // 3. accumulate-into variant on a pre-filled destination, longer than needed
-    let mut o2 = obj.clone();
+    let mut o2 = cloned()?;
     let dl = exp.len() + 3;
     // the destination's previous contents are arbitrary i64 values: small ones, and ones that no float
     // type represents exactly (above 2^24 / 2^53), of both signs, far from overflowing when the product is added
@@ -306,14 +359,14 @@ fn judge_call<F: Float>(obj: &FFT<F>, a: &[i32], b: &[i32]) -> Result<(), (&'sta
     shorts.sort();
     shorts.dedup();
     for k in shorts {
-        let mut o5 = obj.clone();
+        let mut o5 = cloned()?;
         let mut dest: Vec<i64> = (0..k).map(pre).collect();
         match catch(|| o5.multiply_into(a, b, &mut dest)) {
             Err(_) => {
-                SHORT_DEST_REFUSED.fetch_add(1, std::sync::atomic::Ordering::Relaxed);
+                SHORT_DEST_REFUSED.fetch_add(1, Relaxed);
             }
             Ok(()) => {
-                SHORT_DEST_JUDGED.fetch_add(1, std::sync::atomic::Ordering::Relaxed);
+                SHORT_DEST_JUDGED.fetch_add(1, Relaxed);
                 for i in 0..k {
                     if dest[i] != pre(i) + exp[i] {
                         return Err(("multiply_into_short_destination", format!("multiply_into on a pre-filled destination of length {k} (the product has {} coefficients): entry {i} held {} before, is {} after, expected {} (convolution term {})", exp.len(), pre(i), dest[i], pre(i) + exp[i], exp[i])));
@@ -324,7 +377,7 @@ fn judge_call<F: Float>(obj: &FFT<F>, a: &[i32], b: &[i32]) -> Result<(), (&'sta
     }
     // 4a. transform size 1 (single coefficients): the inverse's special case must accumulate as well
     if a.len() == 1 && b.len() == 1 {
-        let mut o4 = obj.clone();
+        let mut o4 = cloned()?;
         let r = catch(|| {
             let fa = o4.fft(a, 1);
             let fb = o4.fft(b, 1);
@@ -347,7 +400,7 @@ fn judge_call<F: Float>(obj: &FFT<F>, a: &[i32], b: &[i32]) -> Result<(), (&'sta
     while n < exp.len() {
         n *= 2;
     }
-    let mut o3 = obj.clone();
+    let mut o3 = cloned()?;
     let viat = catch(|| {
         let fa = o3.fft(a, n);
         let fb = o3.fft(b, n);
@@ -371,15 +424,15 @@ fn judge_call<F: Float>(obj: &FFT<F>, a: &[i32], b: &[i32]) -> Result<(), (&'sta
     Ok(())
 }
 
-fn run_spec(s: &CallSpec) -> Result<(), (&'static str, String)> {
+fn run_spec(s: &CallSpec) -> Result<(), Failed> {
     // aliased operands are passed as what they are: two views of one allocation
     let (a, b): (&[i32], &[i32]) = match &s.views {
         None => (&s.a, &s.b),
         Some(v) => (&v.buf[v.a0..v.a0 + s.a.len()], &v.buf[v.b0..v.b0 + s.b.len()]),
     };
     match s.prec {
-        Prec::F64 => judge_call(&grow::<f64>(s.ctor, s.state, s.grown_by_multiply), a, b),
-        Prec::F32 => judge_call(&grow::<f32>(s.ctor, s.state, s.grown_by_multiply), a, b),
+        Prec::F64 => judge_call(&grow::<f64>(s.prec, s.ctor, s.state, s.grown_by_multiply)?, a, b),
+        Prec::F32 => judge_call(&grow::<f32>(s.prec, s.ctor, s.state, s.grown_by_multiply)?, a, b),
     }
 }
 
@@ -610,8 +663,8 @@ struct ReuseSpec {
     steps: Vec<(usize, usize)>,
 }
 
-static REFILLS_IN_PLACE: std::sync::atomic::AtomicU64 = std::sync::atomic::AtomicU64::new(0);
-static REUSE_STEPS: std::sync::atomic::AtomicU64 = std::sync::atomic::AtomicU64::new(0);
+static REFILLS_IN_PLACE: AtomicU64 = AtomicU64::new(0);
+static REUSE_STEPS: AtomicU64 = AtomicU64::new(0);
 
 fn dest_prefill(i: usize) -> i64 {
     match i % 3 {
@@ -622,7 +675,6 @@ fn dest_prefill(i: usize) -> i64 {
 }
 
 fn run_reuse_typed<F: Float>(s: &ReuseSpec) -> Result<(), String> {
-    use std::sync::atomic::Ordering::Relaxed;
     let (la, lb) = (s.la, s.lb);
     let mag = amax(s.prec, la, lb);
     let size_for = |len: usize| len.next_power_of_two().max(2);
@@ -750,8 +802,343 @@ fn reuse_signature(s: &ReuseSpec) -> String {
 }
 
 // ---------------------------------------------------------------------------------------------
+// several objects: the history of a THREAD (which objects were created, grown, dropped on it, in which
+// order) and objects that change threads
 
-fn confirm(v: &Value) -> Result<(), String> {
+/// `Probe::<T>::SEND` / `::SYNC`: whether `T` is `Send` / `Sync`, decided by the compiler (an inherent
+/// associated constant, which exists only when the bound holds, takes precedence over the trait's default).
+struct Probe<T>(std::marker::PhantomData<T>);
+#[allow(dead_code)] // the defaults are read only for a type that is not Send / not Sync
+trait ProbeDefault {
+    const SEND: bool = false;
+    const SYNC: bool = false;
+}
+impl<T> ProbeDefault for Probe<T> {}
+impl<T: Send> Probe<T> {
+    const SEND: bool = true;
+}
+impl<T: Sync> Probe<T> {
+    const SYNC: bool = true;
+}
+/// objects may be used on a thread other than the one that created them
+const OBJECTS_ARE_SEND: bool = Probe::<FFT<f64>>::SEND && Probe::<FFT<f32>>::SEND;
+/// another thread may look at an object through a shared reference (all it can do with one is clone it)
+const OBJECTS_ARE_SYNC: bool = Probe::<FFT<f64>>::SYNC && Probe::<FFT<f32>>::SYNC;
+
+/// The objects of one script, reachable from both of its threads.  The threads take turns (the
+/// coordinator waits for every step before it sends the next) and lock the mutex for a step.
+struct Across<T>(T);
+// SAFETY: the compiler cannot see that the boxed objects are Send / Sync (the harness does not want to
+// assume it: a library whose objects are not is still checked on one thread).  A second thread touches
+// the objects only in a `Hop` step - generated only if OBJECTS_ARE_SEND - or a `Lend` step, which only
+// reads through a shared reference and is generated only if OBJECTS_ARE_SYNC; `run_script` refuses such
+// steps otherwise.  Without them every object is created, used and dropped by one and the same thread.
+unsafe impl<T> Send for Across<T> {}
+unsafe impl<T> Sync for Across<T> {}
+
+/// (name, la, lb) of the judged products: transform sizes 2 (below the 4 every object is pre-sized to),
+/// 16 and 512
+const CLASSES: [(&str, usize, usize); 3] = [("tiny", 2, 1), ("mid", 9, 8), ("large", 300, 200)];
+/// `update_n` target: larger than every class, reached without a transform
+const UPDATE_TO: usize = 1024;
+/// the product a borrowed clone computes
+const LENT_CLASS: usize = 1;
+const SLOT_NAMES: [&str; 3] = ["X", "Y", "Z"];
+
+#[derive(Clone, Copy, PartialEq, Eq, Debug)]
+enum Step {
+    /// the judged product of a size class on the object in the slot: (slot, class)
+    Mul(usize, usize),
+    /// `update_n(UPDATE_TO)` on the object in the slot
+    Update(usize),
+    /// the object in the slot is dropped, then a new one (`new()`) takes its place
+    Renew(usize),
+    /// (to, from): the object in `to` is replaced by a clone of the one in `from` (same float type)
+    CloneInto(usize, usize),
+    /// the steps that follow run on the script's other thread: every object moves
+    Hop,
+    /// the script's other thread clones the object through a shared reference, computes the judged
+    /// product LENT_CLASS on its clone and drops the clone; the owner goes on afterwards
+    Lend(usize),
+}
+
+impl Step {
+    fn name(self) -> String {
+        let s = |x: usize| SLOT_NAMES[x];
+        match self {
+            Step::Mul(x, c) => format!("{}.mul({})", s(x), CLASSES[c].0),
+            Step::Update(x) => format!("{}.update_n({UPDATE_TO})", s(x)),
+            Step::Renew(x) => format!("{}=new", s(x)),
+            Step::CloneInto(to, from) => format!("{}={}.clone", s(to), s(from)),
+            Step::Hop => "hop".to_string(),
+            Step::Lend(x) => format!("{}.lend", s(x)),
+        }
+    }
+    fn json(self) -> Value {
+        match self {
+            Step::Mul(x, c) => json!(["mul", x, c]),
+            Step::Update(x) => json!(["update_n", x]),
+            Step::Renew(x) => json!(["renew", x]),
+            Step::CloneInto(to, from) => json!(["clone_into", to, from]),
+            Step::Hop => json!(["hop"]),
+            Step::Lend(x) => json!(["lend", x]),
+        }
+    }
+    fn from(v: &Value) -> Step {
+        let n = |i: usize| v[i].as_u64().unwrap() as usize;
+        match v[0].as_str().unwrap() {
+            "mul" => Step::Mul(n(1), n(2)),
+            "update_n" => Step::Update(n(1)),
+            "renew" => Step::Renew(n(1)),
+            "clone_into" => Step::CloneInto(n(1), n(2)),
+            "lend" => Step::Lend(n(1)),
+            _ => Step::Hop,
+        }
+    }
+}
+
+/// The whole history of the script's threads: the cast (float type per slot) is created in slot order by
+/// `new()` on the first thread, then the steps run, then everything is dropped where the last step ran.
+#[derive(Clone, Debug)]
+struct Script {
+    cast: Vec<Prec>,
+    steps: Vec<Step>,
+}
+
+/// the menu of a cast, simplest first
+fn script_letters(cast: &[Prec]) -> Vec<Step> {
+    let slots = 0..cast.len();
+    let mut v: Vec<Step> = slots.clone().flat_map(|x| (0..CLASSES.len()).map(move |c| Step::Mul(x, c))).collect();
+    v.extend(slots.clone().map(Step::Update));
+    v.extend(slots.clone().map(Step::Renew));
+    for to in slots.clone() {
+        v.extend(slots.clone().filter(|&from| from != to && cast[from] == cast[to]).map(|from| Step::CloneInto(to, from)));
+    }
+    if OBJECTS_ARE_SEND {
+        v.push(Step::Hop);
+    }
+    if OBJECTS_ARE_SYNC {
+        v.extend(slots.map(Step::Lend));
+    }
+    v
+}
+
+/// What a script does with an object, whatever its float type; every call into the crate is caught.
+trait Transformer {
+    fn judged_product(&mut self, prec: Prec, class: usize) -> Result<(), String>;
+    fn update(&mut self, n: usize) -> Result<(), String>;
+    fn duplicate(&self) -> Result<Box<dyn Transformer>, String>;
+}
+
+impl<F: Float + 'static> Transformer for FFT<F> {
+    fn judged_product(&mut self, prec: Prec, class: usize) -> Result<(), String> {
+        let (_, la, lb) = CLASSES[class];
+        let mag = amax(prec, la, lb);
+        judge_on(self, &pattern(8, la, mag), &pattern(2, lb, mag))
+    }
+    fn update(&mut self, n: usize) -> Result<(), String> {
+        catch(|| self.update_n(n)).map_err(|p| format!("update_n({n}) panicked: {p}"))
+    }
+    fn duplicate(&self) -> Result<Box<dyn Transformer>, String> {
+        catch(|| Box::new(self.clone()) as Box<dyn Transformer>).map_err(|p| format!("clone panicked: {p}"))
+    }
+}
+
+/// One product on the object ITSELF (no clone, no other object comes into being): multiply, multiply_into
+/// on a pre-filled destination longer than the product, forward x forward -> inverse (returned and
+/// accumulated into a pre-filled destination), each against the schoolbook convolution.
+fn judge_on<F: Float>(obj: &mut FFT<F>, a: &[i32], b: &[i32]) -> Result<(), String> {
+    let exp = conv(a, b);
+    let got = catch(|| obj.multiply(a, b)).map_err(|p| format!("multiply panicked: {p}"))?;
+    if got != exp {
+        return Err(format!("multiply returned {}, the integer convolution is {}; {}", show(&got), show(&exp), first_diff(&got, &exp)));
+    }
+    let added_to = |dest: &[i64]| -> Vec<i64> { dest.iter().enumerate().map(|(i, d)| d.wrapping_sub(dest_prefill(i))).collect() };
+    let mut dest: Vec<i64> = (0..exp.len() + 3).map(dest_prefill).collect();
+    catch(|| obj.multiply_into(a, b, &mut dest)).map_err(|p| format!("multiply_into panicked: {p}"))?;
+    let mut want = exp.clone();
+    want.resize(dest.len(), 0);
+    if added_to(&dest) != want {
+        return Err(format!("multiply_into on a pre-filled destination added {}, the integer convolution is {}; {}", show(&added_to(&dest)), show(&want), first_diff(&added_to(&dest), &want)));
+    }
+    let n = exp.len().next_power_of_two().max(2);
+    let (inv, acc) = catch(|| {
+        let fa = obj.fft(a, n);
+        let fb = obj.fft(b, n);
+        let prod: Vec<Complex<F>> = fa.iter().zip(fb.iter()).map(|(x, y)| *x * *y).collect();
+        let inv = obj.fft_inv(&prod);
+        let mut acc: Vec<i64> = (0..n).map(dest_prefill).collect();
+        obj.fft_inv_into(&prod, &mut acc);
+        (inv, acc)
+    })
+    .map_err(|p| format!("fft / fft_inv panicked: {p}"))?;
+    want.resize(n, 0);
+    if inv != want {
+        return Err(format!("fft(a)*fft(b) -> fft_inv gives {}, the convolution is {}; {}", show(&inv), show(&want), first_diff(&inv, &want)));
+    }
+    if added_to(&acc) != want {
+        return Err(format!("fft_inv_into on a pre-filled destination added {}, the convolution is {}; {}", show(&added_to(&acc)), show(&want), first_diff(&added_to(&acc), &want)));
+    }
+    Ok(())
+}
+
+type Slots = Vec<Option<Box<dyn Transformer>>>;
+
+enum Job {
+    Create(usize),
+    Do(Step),
+    DropAll,
+}
+
+static SCRIPT_PRODUCTS: AtomicU64 = AtomicU64::new(0);
+static SCRIPT_STEPS_ON_SECOND_THREAD: AtomicU64 = AtomicU64::new(0);
+
+fn new_object(prec: Prec) -> Result<Box<dyn Transformer>, String> {
+    let made = match prec {
+        Prec::F64 => catch(|| Box::new(FFT::<f64>::new()) as Box<dyn Transformer>),
+        Prec::F32 => catch(|| Box::new(FFT::<f32>::new()) as Box<dyn Transformer>),
+    };
+    made.map_err(|p| format!("FFT::new() panicked: {p}"))
+}
+
+fn dropped(old: Option<Box<dyn Transformer>>) -> Result<(), String> {
+    catch(move || drop(old)).map_err(|p| format!("dropping an object panicked: {p}"))
+}
+
+/// one job, on the thread that was told to do it
+fn do_job(cast: &[Prec], slots: &mut Slots, job: Job) -> Result<(), String> {
+    let absent = || "harness: the slot is empty".to_string();
+    match job {
+        Job::Create(x) | Job::Do(Step::Renew(x)) => {
+            dropped(slots[x].take())?;
+            slots[x] = Some(new_object(cast[x])?);
+            Ok(())
+        }
+        Job::Do(Step::Mul(x, c)) => {
+            SCRIPT_PRODUCTS.fetch_add(1, Relaxed);
+            slots[x].as_mut().ok_or_else(absent)?.judged_product(cast[x], c)
+        }
+        Job::Do(Step::Update(x)) => slots[x].as_mut().ok_or_else(absent)?.update(UPDATE_TO),
+        Job::Do(Step::CloneInto(to, from)) => {
+            let copy = slots[from].as_ref().ok_or_else(absent)?.duplicate()?;
+            dropped(slots[to].replace(copy))
+        }
+        Job::Do(Step::Lend(x)) => {
+            SCRIPT_PRODUCTS.fetch_add(1, Relaxed);
+            let lent: &dyn Transformer = &**slots[x].as_ref().ok_or_else(absent)?;
+            let mut copy = lent.duplicate()?;
+            let r = copy.judged_product(cast[x], LENT_CLASS).map_err(|m| format!("on a clone made through a shared reference: {m}"));
+            dropped(Some(copy))?;
+            r
+        }
+        Job::Do(Step::Hop) => Ok(()),
+        Job::DropAll => slots.iter_mut().try_for_each(|s| dropped(s.take())),
+    }
+}
+
+fn describe_script(s: &Script, upto: usize) -> String {
+    let cast: Vec<String> = s.cast.iter().enumerate().map(|(x, p)| format!("{} ({:?})", SLOT_NAMES[x], p)).collect();
+    let mut thread = 0;
+    let mut told = vec![];
+    for st in &s.steps[..upto] {
+        match st {
+            Step::Hop => {
+                thread = 1 - thread;
+                told.push(format!("all objects move to thread T{thread}"));
+            }
+            Step::Lend(_) => told.push(format!("{} to T{}", st.name(), 1 - thread)),
+            _ => told.push(format!("{} on T{thread}", st.name())),
+        }
+    }
+    format!("objects {} created in this order by new() on the fresh thread T0{}{}", cast.join(", "), if told.is_empty() { "" } else { "; then " }, told.join(", "))
+}
+
+/// Plain execution of one script on (at most) two fresh threads of its own; the calling thread only
+/// hands out the steps, one at a time, and calls nothing.
+fn run_script(s: &Script) -> Result<(), String> {
+    use std::sync::mpsc::{channel, Receiver, Sender};
+    if s.cast.len() > SLOT_NAMES.len() || (!OBJECTS_ARE_SEND && s.steps.contains(&Step::Hop)) || (!OBJECTS_ARE_SYNC && s.steps.iter().any(|st| matches!(st, Step::Lend(_)))) {
+        harness_thread_failed("a script moves or shares objects that the compiler does not allow to be moved or shared, or names a slot that does not exist");
+    }
+    let slots: Across<std::sync::Mutex<Slots>> = Across(std::sync::Mutex::new(s.cast.iter().map(|_| None).collect()));
+    let (slots, cast) = (&slots, &s.cast[..]);
+    std::thread::scope(|sc| {
+        let mut threads: [Option<(Sender<Job>, Receiver<Result<(), String>>)>; 2] = [None, None];
+        let mut tell = |t: usize, job: Job| -> Result<(), String> {
+            let (to, from) = threads[t].get_or_insert_with(|| {
+                FRESH_THREADS.fetch_add(1, Relaxed);
+                let ((to, jobs), (done, from)) = (channel::<Job>(), channel());
+                let body = move || {
+                    for job in jobs {
+                        let r = do_job(cast, &mut slots.0.lock().unwrap_or_else(|e| e.into_inner()), job);
+                        if done.send(r).is_err() {
+                            return;
+                        }
+                    }
+                };
+                if let Err(e) = std::thread::Builder::new().spawn_scoped(sc, body) {
+                    harness_thread_failed(&format!("cannot start a thread: {e}"));
+                }
+                (to, from)
+            });
+            if t == 1 {
+                SCRIPT_STEPS_ON_SECOND_THREAD.fetch_add(1, Relaxed);
+            }
+            let _ = to.send(job);
+            from.recv().unwrap_or_else(|_| harness_thread_failed("a script thread panicked outside a call into the library"))
+        };
+        let mut current = 0;
+        let mut verdict = (0..cast.len()).try_for_each(|x| tell(0, Job::Create(x)).map_err(|m| format!("creating the objects {:?} by new() on a fresh thread: {m}", cast)));
+        for (k, &step) in s.steps.iter().enumerate() {
+            if verdict.is_err() {
+                break;
+            }
+            let on = match step {
+                Step::Hop => {
+                    current = 1 - current;
+                    continue;
+                }
+                Step::Lend(_) => 1 - current,
+                _ => current,
+            };
+            verdict = tell(on, Job::Do(step)).map_err(|m| format!("{}; step #{k}, {} on T{on}: {m}", describe_script(s, k), step.name()));
+        }
+        let cleared = tell(current, Job::DropAll);
+        verdict.and(cleared)
+    })
+}
+
+fn script_json(s: &Script) -> Value {
+    json!({"kind": "several_objects", "cast": s.cast.iter().map(|p| format!("{:?}", p)).collect::<Vec<_>>(), "steps": s.steps.iter().map(|st| st.json()).collect::<Vec<_>>()})
+}
+
+fn script_from(v: &Value) -> Script {
+    Script { cast: v["cast"].as_array().unwrap().iter().map(|p| if p == "F32" { Prec::F32 } else { Prec::F64 }).collect(), steps: v["steps"].as_array().unwrap().iter().map(Step::from).collect() }
+}
+
+fn script_signature(s: &Script) -> String {
+    let cast: Vec<String> = s.cast.iter().map(|p| format!("{:?}", p)).collect();
+    let steps: Vec<String> = s.steps.iter().map(|st| st.name()).collect();
+    format!("several_objects:{}:{}", cast.join(","), steps.join(" -> "))
+}
+
+/// The script of a (word length, rank) of a cast: words of one length in lexicographic order of the menu.
+fn script_of(cast: &[Prec], letters: &[Step], len: usize, mut rank: u64) -> Script {
+    let mut steps = vec![letters[0]; len];
+    for pos in (0..len).rev() {
+        steps[pos] = letters[(rank % letters.len() as u64) as usize];
+        rank /= letters.len() as u64;
+    }
+    Script { cast: cast.to_vec(), steps }
+}
+
+// ---------------------------------------------------------------------------------------------
+
+/// One recorded case, on the thread that calls this.
+fn confirm_here(v: &Value) -> Result<(), String> {
+    if v["kind"] == "several_objects" {
+        return run_script(&script_from(v));
+    }
     if v["kind"] == "reuse_history" {
         return run_reuse(&reuse_from(v));
     }
@@ -760,6 +1147,82 @@ fn confirm(v: &Value) -> Result<(), String> {
         return catch(|| run_history(&ops)).unwrap_or_else(|p| Err(format!("panic: {p}")));
     }
     run_spec(&spec_from(v)).map_err(|(f, m)| format!("[{f}] {m}"))
+}
+
+/// What else a thread may have done before a call (the `thread_history` of a replay): another object of
+/// a float type created on it by `new()`, grown to a table size by `update_n`, then dropped or kept alive.
+#[derive(Clone, Copy)]
+struct Another {
+    prec: Prec,
+    size: usize,
+    kept: bool,
+}
+
+impl Another {
+    /// The menu, simplest first: a table smaller than most calls need, a medium one, one larger than
+    /// any call of either tier needs.
+    fn menu() -> Vec<Another> {
+        let mut v = vec![];
+        for size in [8, 2048, 1 << 21] {
+            for prec in [Prec::F64, Prec::F32] {
+                v.extend([true, false].map(|kept| Another { prec, size, kept }));
+            }
+        }
+        v
+    }
+    fn words(self) -> String {
+        format!("another {:?} object created by new(), update_n({}), {}", self.prec, self.size, if self.kept { "kept alive" } else { "dropped" })
+    }
+    fn json(self) -> Value {
+        json!({"another_object": format!("{:?}", self.prec), "update_n": self.size, "kept": self.kept})
+    }
+    fn from(v: &Value) -> Another {
+        Another { prec: if v["another_object"] == "F32" { Prec::F32 } else { Prec::F64 }, size: v["update_n"].as_u64().unwrap() as usize, kept: v["kept"].as_bool().unwrap() }
+    }
+    /// on the calling thread; the object, if it is kept
+    fn happen(self) -> Result<Option<Box<dyn Transformer>>, String> {
+        let mut o = new_object(self.prec)?;
+        o.update(self.size)?;
+        if self.kept {
+            return Ok(Some(o));
+        }
+        dropped(Some(o)).map(|_| None)
+    }
+}
+
+/// Plain re-execution of a recorded case on a FRESH thread, after the recorded `thread_history` (if any)
+/// on that same thread.
+fn confirm(v: &Value) -> Result<(), String> {
+    on_fresh_thread(|| {
+        let history: Vec<Another> = v.get("thread_history").and_then(|h| h.as_array()).map(|h| h.iter().map(Another::from).collect()).unwrap_or_default();
+        let mut alive = vec![];
+        for h in &history {
+            alive.extend(h.happen().map_err(|m| format!("{}: {m}", h.words()))?);
+        }
+        let verdict = confirm_here(v);
+        let cleared = alive.into_iter().try_for_each(|o| dropped(Some(o)));
+        let told: Vec<String> = history.iter().map(|h| h.words()).collect();
+        verdict.and(cleared).map_err(|m| if told.is_empty() { m } else { format!("{m} [on a fresh thread, after: {}]", told.join("; ")) })
+    })
+}
+
+/// A failure seen by the exploration, before it is known whether a fresh thread shows it again.
+struct Candidate {
+    signature: String,
+    summary: String,
+    replay: Value,
+}
+
+/// The first entry of the menu after which a fresh thread shows the candidate (which it does not show
+/// alone), as the violation to report: the history is part of its replay and of its signature.
+fn after_some_history(c: &Candidate) -> Option<Violation> {
+    Another::menu().into_iter().find_map(|h| {
+        let mut after = c.replay.clone();
+        after["thread_history"] = json!([h.json()]);
+        confirm(&after).err()?;
+        let summary = format!("{} [seen on a pool thread that had made the calls of other units before; alone on a fresh thread the call passes; on a fresh thread it fails after: {}]", c.summary, h.words());
+        Some(Violation::new(format!("{}:after {}", c.signature, h.words()), summary, after))
+    })
 }
 
 #[derive(Default)]
@@ -796,6 +1259,29 @@ fn main() {
     }
     let mut run = Run::new(&args, "fft", "model_checking");
     let quick = args.tier == Tier::Quick;
+
+    // --- part 0: several objects; the history of a thread is what is enumerated -----------------------
+    // (cast, depth): every word of up to `depth` letters of the cast's menu, each on fresh threads of its own
+    let (f64_, f32_) = (Prec::F64, Prec::F32);
+    let casts: Vec<(Vec<Prec>, usize)> = if quick { vec![(vec![f64_, f64_], 3), (vec![f64_, f32_], 3), (vec![f64_, f32_, f64_], 2)] } else { vec![(vec![f64_, f64_], 4), (vec![f64_, f32_], 4), (vec![f64_, f32_, f64_], 3)] };
+    let menus: Vec<Vec<Step>> = casts.iter().map(|c| script_letters(&c.0)).collect();
+    // (word length, cast, rank among the words of that length): shortest first
+    let mut script_ids: Vec<(usize, usize, u64)> = vec![];
+    for (ci, (_, depth)) in casts.iter().enumerate() {
+        for len in 0..=*depth {
+            script_ids.extend((0..(menus[ci].len() as u64).pow(len as u32)).map(|rank| (len, ci, rank)));
+        }
+    }
+    let script_fail = script_ids
+        .par_iter()
+        .filter_map(|&(len, ci, rank)| {
+            let s = script_of(&casts[ci].0, &menus[ci], len, rank);
+            run_script(&s).err().map(|m| ((len, ci, rank), s, m))
+        })
+        .min_by_key(|x| x.0);
+    let n_scripts = script_ids.len() as u64;
+    let (script_products, script_second_thread, script_threads) = (SCRIPT_PRODUCTS.load(Relaxed), SCRIPT_STEPS_ON_SECOND_THREAD.load(Relaxed), FRESH_THREADS.load(Relaxed));
+
 
     // object states
     let kmax = if quick { 11 } else { 13 };
@@ -913,34 +1399,40 @@ fn main() {
             }
         }
     }
-    let part2 = small_tasks
-        .par_iter()
-        .map(|&(prec, st, la, lb)| {
-            let mut tot = Tot::default();
-            let a_mag = amax(prec, la, lb);
-            let letters = [-a_mag, -1, 0, 1, a_mag];
-            let obj64 = if prec == Prec::F64 { Some(grow::<f64>(Ctor::New, st, false)) } else { None };
-            let obj32 = if prec == Prec::F32 { Some(grow::<f32>(Ctor::New, st, false)) } else { None };
-            let na = 5usize.pow(la as u32);
-            let nb = 5usize.pow(lb as u32);
-            for ca in 0..na {
-                let a: Vec<i32> = (0..la).map(|i| letters[(ca / 5usize.pow(i as u32)) % 5]).collect();
-                for cb in 0..nb {
-                    let b: Vec<i32> = (0..lb).map(|i| letters[(cb / 5usize.pow(i as u32)) % 5]).collect();
-                    tot.calls += 1;
-                    let r = match prec {
-                        Prec::F64 => judge_call(obj64.as_ref().unwrap(), &a, &b),
-                        Prec::F32 => judge_call(obj32.as_ref().unwrap(), &a, &b),
-                    };
-                    if let Err((f, m)) = r {
-                        let s = CallSpec::plain(prec, st, a.clone(), b.clone());
-                        tot.fails.push(((1u64 << 60) | ((la + lb) as u64) << 40 | (ca * nb + cb) as u64, f, s, m));
-                        return tot;
-                    }
+    fn small_vectors<F: Float>(prec: Prec, st: usize, la: usize, lb: usize) -> Tot {
+        let mut tot = Tot::default();
+        let a_mag = amax(prec, la, lb);
+        let letters = [-a_mag, -1, 0, 1, a_mag];
+        let vector = |code: usize, len: usize| -> Vec<i32> { (0..len).map(|i| letters[(code / 5usize.pow(i as u32)) % 5]).collect() };
+        let (na, nb) = (5usize.pow(la as u32), 5usize.pow(lb as u32));
+        let fail = |rank: usize, (fam, msg): Failed, a: Vec<i32>, b: Vec<i32>| ((1u64 << 60) | ((la + lb) as u64) << 40 | rank as u64, fam, CallSpec::plain(prec, st, a, b), msg);
+        // one object per unit; if it cannot be had, the unit's first call is what fails
+        let obj = match grow::<F>(prec, Ctor::New, st, false) {
+            Ok(o) => o,
+            Err(e) => {
+                tot.fails.push(fail(0, e, vector(0, la), vector(0, lb)));
+                return tot;
+            }
+        };
+        for ca in 0..na {
+            let a = vector(ca, la);
+            for cb in 0..nb {
+                let b = vector(cb, lb);
+                tot.calls += 1;
+                if let Err(e) = judge_call(&obj, &a, &b) {
+                    tot.fails.push(fail(ca * nb + cb, e, a, b));
+                    return tot;
                 }
             }
-            tot.nontrivial = tot.calls;
-            tot
+        }
+        tot.nontrivial = tot.calls;
+        tot
+    }
+    let part2 = small_tasks
+        .par_iter()
+        .map(|&(prec, st, la, lb)| match prec {
+            Prec::F64 => small_vectors::<f64>(prec, st, la, lb),
+            Prec::F32 => small_vectors::<f32>(prec, st, la, lb),
         })
         .reduce(Tot::default, merge);
 
@@ -1084,30 +1576,59 @@ fn main() {
     // shortest history first, then the smallest length pair, then task order
     let reuse_fail = reuse_results.iter().enumerate().filter_map(|(ti, r)| r.1.as_ref().map(|f| ((f.0, reuse_tasks[ti].0, ti, f.1), f))).min_by_key(|x| x.0).map(|x| x.1.clone());
 
+    // --- what is reported: per family the first failure that a fresh thread shows again ---------------
     let part5_calls = part5.calls;
-    let all = merge(merge(merge(part1, part2), part3), part5);
-    let mut fails = all.fails.clone();
-    fails.sort_by_key(|f| f.0);
-    for (_, fam, s, m) in &fails {
+    let mut all = merge(merge(merge(part1, part2), part3), part5);
+    all.fails.sort_by_key(|f| f.0);
+    // the scripts first: each is the whole history of fresh threads of its own
+    let mut candidates = vec![];
+    if let Some((_, s, m)) = &script_fail {
+        candidates.push(Candidate { signature: script_signature(s), summary: format!("[several_objects] {m}"), replay: script_json(s) });
+    }
+    for (_, fam, s, m) in &all.fails {
         let views = match &s.views {
             None => String::new(),
             Some(v) => format!(" [a and b are VIEWS of one buffer of {} elements: a = buf[{}..{}], b = buf[{}..{}], {}]", v.buf.len(), v.a0, v.a0 + s.a.len(), v.b0, v.b0 + s.b.len(), relation(v.a0, s.a.len(), v.b0, s.b.len())),
         };
-        run.violation(Violation::new(
-            signature(fam, s),
-            format!("[{fam}] {:?} object obtained by {} with tables of size {} ({}), a = {} (len {}), b = {} (len {}){views}: {m}", s.prec, s.ctor.name(), s.state, if s.grown_by_multiply { "reached by a multiply" } else { "update_n" }, describe(&s.a), s.a.len(), describe(&s.b), s.b.len()),
-            spec_json(s),
-        ));
+        let summary = format!("[{fam}] {:?} object obtained by {} with tables of size {} ({}), a = {} (len {}), b = {} (len {}){views}: {m}", s.prec, s.ctor.name(), s.state, if s.grown_by_multiply { "reached by a multiply" } else { "update_n" }, describe(&s.a), s.a.len(), describe(&s.b), s.b.len());
+        candidates.push(Candidate { signature: signature(fam, s), summary, replay: spec_json(s) });
     }
     if let Some((_, _, spec, m)) = &reuse_fail {
-        run.violation(Violation::new(reuse_signature(spec), m.clone(), reuse_json(spec)));
+        candidates.push(Candidate { signature: reuse_signature(spec), summary: m.clone(), replay: reuse_json(spec) });
     }
     if let Some((_, h, m)) = &hist_fail {
-        run.violation(Violation::new(format!("history:{:?}", h), m.clone(), json!({"kind": "history", "ops": h.iter().map(hop_json).collect::<Vec<_>>()})));
+        candidates.push(Candidate { signature: format!("history:{:?}", h), summary: m.clone(), replay: json!({"kind": "history", "ops": h.iter().map(hop_json).collect::<Vec<_>>()}) });
+    }
+    // what a fresh thread shows alone is reported as it is
+    let (alone, not_alone): (Vec<Candidate>, Vec<Candidate>) = candidates.into_iter().partition(|c| confirm(&c.replay).is_err());
+    let by_the_scripts = alone.iter().any(|c| c.replay["kind"] == "several_objects");
+    for c in alone {
+        run.violation(Violation::new(c.signature, c.summary, c.replay));
+    }
+    // The rest failed on a pool thread only: the defect depends on what the thread did before.  If the
+    // scripts report (they enumerate exactly that, deterministically) it is left to them; otherwise a
+    // recorded thread history under which a fresh thread shows the failure is looked for.
+    let mut dispositions = vec![];
+    for c in &not_alone {
+        let after = if by_the_scripts { None } else { after_some_history(c) };
+        dispositions.push(json!({"signature": c.signature, "disposition": match &after {
+            Some(v) => format!("reported as {}", v.signature),
+            None if by_the_scripts => "left to the several_objects violation".to_string(),
+            None => "no fresh thread shows it (alone, after each thread history of the menu): not reported".to_string(),
+        }}));
+        if let Some(v) = after {
+            run.violation(v);
+        }
+    }
+    if !not_alone.is_empty() {
+        run.cov("failures_on_pool_threads_that_a_fresh_thread_does_not_show_alone", json!(dispositions));
+        if !run.has_violations() {
+            run.machinery_failure(&format!("{} failure(s) seen on pool threads show on no fresh thread (alone, after each recorded thread history of the menu), and nothing else is reported; first: {}", not_alone.len(), not_alone[0].signature));
+        }
     }
 
     let n_states = object_states.len() as u64;
-    let n_hist = hists.len() as u64 + reuse_histories;
+    let n_hist = hists.len() as u64 + reuse_histories + n_scripts;
     run.cov("states", n_states);
     run.cov("transitions", all.calls + n_hist);
     run.cov("traces_validated_against_impl", all.calls + n_hist);
@@ -1120,20 +1641,28 @@ fn main() {
     run.cov("aliased_operand_calls", part5_calls);
     run.cov("aliased_operand_layouts_by_relation", json!(relation_counts));
     run.cov("buffer_reuse_histories", reuse_histories);
-    run.cov("buffer_reuse_steps_judged", REUSE_STEPS.load(std::sync::atomic::Ordering::Relaxed));
-    run.cov("buffer_reuse_refills_in_place_same_address", REFILLS_IN_PLACE.load(std::sync::atomic::Ordering::Relaxed));
+    run.cov("buffer_reuse_steps_judged", REUSE_STEPS.load(Relaxed));
+    run.cov("buffer_reuse_refills_in_place_same_address", REFILLS_IN_PLACE.load(Relaxed));
     run.cov("buffer_reuse_length_pairs_and_depth", json!(reuse_pairs));
     run.cov("lengths", json!(lens));
     run.cov("call_histories_up_to_3", hists.len() as u64);
     run.cov("exhaustive_small_vector_tasks", small_tasks.len() as u64);
+    run.cov("several_objects_scripts", n_scripts);
+    run.cov("several_objects_casts_and_depth", json!(casts.iter().map(|(c, d)| json!({"cast": c.iter().map(|p| format!("{:?}", p)).collect::<Vec<_>>(), "depth": d})).collect::<Vec<_>>()));
+    run.cov("several_objects_menus", json!(menus.iter().map(|m| m.iter().map(|s| s.name()).collect::<Vec<_>>()).collect::<Vec<_>>()));
+    run.cov("several_objects_judged_products", script_products);
+    run.cov("several_objects_steps_on_the_second_thread", script_second_thread);
+    run.cov("several_objects_fresh_threads_started", script_threads);
+    run.cov("objects_are_send_sync_by_compile_time_probe", json!({"Send (objects move between threads)": OBJECTS_ARE_SEND, "Sync (objects are lent to another thread)": OBJECTS_ARE_SYNC}));
+    run.cov("thread_histories_tried_when_a_failure_does_not_show_alone_on_a_fresh_thread", json!(Another::menu().iter().map(|h| h.words()).collect::<Vec<_>>()));
     run.cov("envelope", json!({"f64": "max|coef|^2 * max(len a, len b) <= 1e12", "f32": "max|coef|^2 * max(len a, len b) <= 1e3"}));
     run.cov("patterns", json!(PATTERN_NAMES));
     run.cov("exhaustive", false);
-    run.cov("multiply_into_short_destination_calls_judged", SHORT_DEST_JUDGED.load(std::sync::atomic::Ordering::Relaxed));
-    run.cov("multiply_into_short_destination_calls_refused_by_panic_not_judged", SHORT_DEST_REFUSED.load(std::sync::atomic::Ordering::Relaxed));
+    run.cov("multiply_into_short_destination_calls_judged", SHORT_DEST_JUDGED.load(Relaxed));
+    run.cov("multiply_into_short_destination_calls_refused_by_panic_not_judged", SHORT_DEST_REFUSED.load(Relaxed));
     run.cov(
         "rule",
-        "state = (how the object was obtained: new, Default::default, a clone of either - the whole public constructor surface; size of its twiddle/bit-reversal tables: every power of two 4..2^K for new(), reached by update_n and by a large multiply, and for every constructor the sizes 1 and 2 below the pre-sized 4 - so that a 1-, 2- or 4-point transform is the FIRST thing that kind of fresh object computes - and 4, 8, 64, 2048); transition = one call (a, b) judged five ways (exact convolution, fresh object, repeated call, multiply_into on a pre-filled destination longer than the product and on destinations shorter than it (lengths 1, min and max operand length, product length - 1: the positions that exist must receive exactly their coefficients), fft*fft->fft_inv and fft_inv_into); calls = every length pair of the length set x 12 pattern pairs x magnitudes {1, sqrt(Amax), Amax} with Amax on the envelope boundary (constructors other than new and the sizes 1, 2: all pairs of lengths <= 8 and a third of the pairs at a size switch), all vectors over {-A,-1,0,1,A} for lengths <= 4 (quick: la+lb <= 6), envelope corners with long vectors, all call histories of length <= 3 over an 8-call alphabet; ALIASED operands: a and b passed as two views of ONE buffer - all pairs of windows of an 8-element buffer (quick; the same slice twice, prefixes, suffixes, nested, overlapping, adjacent, empty) and the same relations at longer lengths around powers of two, 4 contents x 2 magnitudes, judged the same five ways against the convolution of the VALUES; BUFFER-REUSE histories: one object and one set of caller buffers (two inputs, three spectrum buffers, one destination, never reallocated: same address, same length, same n), every word of up to 3 letters (contents in {c0, c0 with A and B exchanged, c2} written into the buffers IN PLACE) x (method in {multiply, multiply with the arguments exchanged, multiply_into, fft/fft/pointwise/fft_inv, fft_into/fft_into/pointwise/fft_inv_into, fft once/pointwise square/fft_inv on A, the same on B}), every step compared with the convolution of the buffers' current values, for 8 length pairs x {new, default} x {f64, f32}; NOT all coefficient vectors (exhaustive: false)",
+        "state = (how the object was obtained: new, Default::default, a clone of either - the whole public constructor surface; size of its twiddle/bit-reversal tables: every power of two 4..2^K for new(), reached by update_n and by a large multiply, and for every constructor the sizes 1 and 2 below the pre-sized 4 - so that a 1-, 2- or 4-point transform is the FIRST thing that kind of fresh object computes - and 4, 8, 64, 2048); transition = one call (a, b) judged five ways (exact convolution, fresh object, repeated call, multiply_into on a pre-filled destination longer than the product and on destinations shorter than it (lengths 1, min and max operand length, product length - 1: the positions that exist must receive exactly their coefficients), fft*fft->fft_inv and fft_inv_into); calls = every length pair of the length set x 12 pattern pairs x magnitudes {1, sqrt(Amax), Amax} with Amax on the envelope boundary (constructors other than new and the sizes 1, 2: all pairs of lengths <= 8 and a third of the pairs at a size switch), all vectors over {-A,-1,0,1,A} for lengths <= 4 (quick: la+lb <= 6), envelope corners with long vectors, all call histories of length <= 3 over an 8-call alphabet; ALIASED operands: a and b passed as two views of ONE buffer - all pairs of windows of an 8-element buffer (quick; the same slice twice, prefixes, suffixes, nested, overlapping, adjacent, empty) and the same relations at longer lengths around powers of two, 4 contents x 2 magnitudes, judged the same five ways against the convolution of the VALUES; BUFFER-REUSE histories: one object and one set of caller buffers (two inputs, three spectrum buffers, one destination, never reallocated: same address, same length, same n), every word of up to 3 letters (contents in {c0, c0 with A and B exchanged, c2} written into the buffers IN PLACE) x (method in {multiply, multiply with the arguments exchanged, multiply_into, fft/fft/pointwise/fft_inv, fft_into/fft_into/pointwise/fft_inv_into, fft once/pointwise square/fft_inv on A, the same on B}), every step compared with the convolution of the buffers' current values, for 8 length pairs x {new, default} x {f64, f32}; SEVERAL OBJECTS (the history of a THREAD is what is enumerated; runs first): a cast of two or three objects (f64/f64, f64/f32, f64/f32/f64) is created in order by new() on a fresh thread T0, then every word of up to 3 letters (2 for the cast of three; thorough 4 / 3) over {judged product of a size class (transform sizes 2, 16, 512, magnitudes on the envelope boundary) on one of the objects ITSELF - multiply, multiply_into on a pre-filled destination, fft*fft->fft_inv and fft_inv_into, each against the schoolbook convolution; update_n(1024) on an object; an object dropped and a new one created in its place; an object replaced by a clone of another of its float type; 'hop': the following steps run on the script's second fresh thread T1, or back on T0 - every object moves (generated only if the compiler says the objects are Send); 'lend': the other thread clones an object through a shared reference, computes the mid product on the clone and drops it (only if they are Sync)}, at the end everything is dropped on the thread of the last step; the words include an object that is fresh next to a grown one, objects used alternately while one of them grows, a fresh object after a grown one was dropped, an object grown on one thread and used on the other; EVERY call into the crate (constructors, clones, update_n, the growing multiplies - themselves judged against the convolution of all-ones vectors -, transforms, explicit drops) is inside catch, and a panic is a violation of the family it belongs to (object_state_panics for constructors, clones and update_n); NOT all coefficient vectors (exhaustive: false)",
     );
     run.sample(json!({"prec": "F64", "state": 2048, "a": "alternating ±A (len 33)", "b": "alternating ±A (len 31)", "A": amax(Prec::F64, 33, 31)}));
     run.sample(json!({"prec": "F32", "state": 4, "a": pattern(8, 5, amax(Prec::F32, 5, 4)), "b": pattern(2, 4, amax(Prec::F32, 5, 4))}));
@@ -1141,12 +1670,21 @@ fn main() {
     run.assume("the envelope is read as max|coef|^2 * max(len a, len b) <= 1e12 (f64): inside the property's formula and inside the published table for unequal lengths too (zero padding); the f32 envelope max|coef|^2 * max(len) <= 1e3 is this harness's reading of 'a correspondingly smaller bound for f32' (>= 100x inside CORRECT_F32_BOUNDS)");
     run.sample(json!({"aliased": {"buffer": pattern(8, 8, 11), "a": "buf[0..5]", "b": "buf[0..3]", "relation": relation(0, 5, 0, 3)}}));
     run.sample(json!({"buffer_reuse_history": reuse_json(&ReuseSpec { prec: Prec::F64, ctor: Ctor::Default, la: 3, lb: 2, steps: vec![(0, 5), (1, 5), (2, 3)] })}));
+    {
+        let mut steps = vec![Step::Mul(0, 2), Step::Renew(1), Step::Mul(1, 0)];
+        if OBJECTS_ARE_SEND {
+            steps.extend([Step::Hop, Step::Mul(0, 1)]);
+        }
+        let s = Script { cast: casts[1].0.clone(), steps };
+        run.sample(json!({"several_objects_script": script_json(&s), "in_words": describe_script(&s, s.steps.len())}));
+    }
+    run.assume("'a fresh object' and 'whatever the object computed earlier' are read as: whatever ELSE happened on the thread (other objects of either float type created, grown, cloned, dropped before or between the calls) and on whichever thread the object is used (moved there, or cloned there through a shared reference) - a product inside the envelope is exact regardless. The several-objects scripts pin the whole history of their threads down (fresh threads, the script is the replay). The other families run on pool threads whose earlier calls (other units) are NOT recorded: a failure they see is reported only with a history under which a fresh thread shows it again - none, or one entry of thread_histories_tried_when_a_failure_does_not_show_alone_on_a_fresh_thread - and that history is part of the replay; if the several-objects scripts report a violation such failures are left to it; all of them are listed under failures_on_pool_threads_that_a_fresh_thread_does_not_show_alone, and one that no fresh thread shows is not a verdict by itself. State shared by ALL threads of the process (a global table) is outside what a replay pins down: units run concurrently");
     run.assume("aliasing is limited to what safe Rust allows: the two i32 operands may be any two views of one allocation; a destination (&mut [i64] / &mut [Complex]) cannot alias an operand, so destinations and spectrum buffers are REUSED across calls (buffer-reuse histories) rather than aliased");
     if !run.has_violations() && (all.calls < 50_000 || all.size_switch < 100) {
         run.machinery_failure("exploration implausibly small");
     }
     if !run.has_violations() {
-        let refills = REFILLS_IN_PLACE.load(std::sync::atomic::Ordering::Relaxed);
+        let refills = REFILLS_IN_PLACE.load(Relaxed);
         let prefix_layouts = relation_counts.get(relation(0, 2, 0, 1)).copied().unwrap_or(0);
         if part5_calls < 1000 || relation_counts.len() < 7 || prefix_layouts == 0 {
             run.machinery_failure("the aliased-operand family did not cover every relation between two views");
@@ -1156,6 +1694,9 @@ fn main() {
         }
         if !object_states.iter().any(|o| o.0 == Ctor::Default && o.1 == 1) || !CTORS.iter().all(|c| object_states.iter().any(|o| o.0 == *c)) {
             run.machinery_failure("some public constructor is not an initial object state");
+        }
+        if n_scripts < 1000 || script_products < n_scripts || script_threads < n_scripts || (OBJECTS_ARE_SEND && script_second_thread == 0) || menus.iter().any(|m| m.len() < 2 * CLASSES.len() + 4) {
+            run.machinery_failure("the several-objects scripts did not run on fresh threads, judged nothing or never left their first thread");
         }
     }
     run.finish(&confirm)
